@@ -21,6 +21,8 @@ type Lexer struct {
 	peeks  []token.Token
 	isEOF  bool
 
+	reachedEnd bool // the reader is exhausted
+
 	customs map[string]token.TokenType
 }
 
@@ -59,7 +61,12 @@ func (l *Lexer) readChar() {
 	r, _, err := l.r.ReadRune()
 	if err != nil {
 		l.char = 0x00
-		l.index += 1
+		// Advance only once at the end of input so that the EOF token
+		// points at the position just after the last character.
+		if !l.reachedEnd {
+			l.index += 1
+			l.reachedEnd = true
+		}
 		return
 	}
 	if l.char == 0x0A { // LF
